@@ -89,6 +89,19 @@ def write_figures(fig, workdir=None):
     paths = []
     for i, f in enumerate(fig["files"]):
         p = os.path.join(workdir, f"{f.get('stem', 'fig%d' % i)}{f['suffix']}")
+        if f.get("link_target") is not None:
+            # the listed path is a symbolic link to a content-addressed store file whose own name has another suffix or none
+            os.makedirs(os.path.join(workdir, "store"), exist_ok=True)
+            target = os.path.join(workdir, "store", f"{f.get('stem', 'fig%d' % i)}_blob{f['link_target']}")
+            with open(target, "wb") as fh:
+                fh.write(bytes.fromhex(f["hex"]))
+            if os.path.lexists(p):
+                os.remove(p)
+            os.symlink(target, p)
+            paths.append(p)
+            continue
+        if os.path.islink(p):
+            os.remove(p)
         with open(p, "wb") as fh:
             fh.write(bytes.fromhex(f["hex"]))
         paths.append(p)
